@@ -4,7 +4,7 @@ import PdModel.Proto
 
 `output run <depth> <nosidebar 0|1> <roots natlist> <all natlist> <obj> <obj> …`
 
-obj = `kind|name|parent|privacy|contents|hasdoc|docsource|xrefs|annrefs|bases|basenames|mro|subclasses|sigrefs|ctors|docctx|module|valrefs|ownctx`
+obj = `kind|name|parent|privacy|contents|hasdoc|docsource|xrefs|annrefs|bases|basenames|mro|subclasses|sigrefs|ctors|docctx|module|valrefs|ownctx|laterefs`
   kind ∈ P M C F A; name `u:…`; parent / docsource `-` or a number; privacy ∈ H R U;
   lists `-` or comma separated; bases / sigrefs items `x` (None) or a number; basenames items `u:…`.
 
@@ -31,7 +31,7 @@ def parseNames (t : String) : Option (List Name) :=
 
 def parseObj (tok : String) : Option Obj :=
   match tok.splitOn "|" with
-  | [k, nm, par, pr, cont, hd, ds, xr, an, bs, bn, mro, sub, sg, ct, dc, md, vr, oc] => do
+  | [k, nm, par, pr, cont, hd, ds, xr, an, bs, bn, mro, sub, sg, ct, dc, md, vr, oc, lr] => do
     let k ← parseKind k
     let nm ← Proto.decodeStr nm
     let par ← parseOptNat par
@@ -50,10 +50,11 @@ def parseObj (tok : String) : Option Obj :=
     let md ← parseOptNat md
     let vr ← Proto.natList vr
     let oc ← parseOptNat oc
+    let lr ← Proto.natList lr
     some { name := nm, kind := k, parent := par, privacy := pr, contents := cont, hasDoc := hd == "1",
            docSource := ds, xrefs := xr, annrefs := an, bases := bs, baseNames := bn, mro := mro,
            subclasses := sub, sigrefs := sg, ctors := ct, docCtx := dc, modul := md,
-           valrefs := vr, ownCtx := oc }
+           valrefs := vr, ownCtx := oc, laterefs := lr }
   | _ => none
 
 def optIds : List (Option Nat) → List Nat := fun l => l.filterMap id
@@ -64,7 +65,7 @@ def idsInRange (s : Sys) : Bool :=
   s.roots.all ok && s.all.all ok && s.objs.all fun o =>
     (match o.parent with | none => true | some p => ok p) && o.contents.all ok
     && (match o.docSource with | none => true | some p => ok p) && (match o.docCtx with | none => true | some p => ok p)
-    && (match o.modul with | none => true | some p => ok p) && o.xrefs.all ok && o.annrefs.all ok && o.valrefs.all ok
+    && (match o.modul with | none => true | some p => ok p) && o.xrefs.all ok && o.annrefs.all ok && o.valrefs.all ok && o.laterefs.all ok
     && (match o.ownCtx with | none => true | some p => ok p)
     && (optIds o.bases).all ok && o.mro.all ok && o.subclasses.all ok && (optIds o.sigrefs).all ok && o.ctors.all ok
 
@@ -103,14 +104,14 @@ def rowName : Row → String
   | .sidebarTitle => "sidebar-title" | .sidebarItem => "sidebar" | .sidebarInherited => "sidebar-inherited"
   | .heading => "heading" | .classSig => "classsig" | .knownSub => "knownsub" | .overrides => "overrides"
   | .overriddenIn => "overriddenin" | .baseName => "basename" | .baseVia => "basevia"
-  | .docXref => "docxref" | .annXref => "annxref" | .valXref => "valxref" | .extraInfo => "extra" | .sumCopy => "sumcopy"
+  | .docXref => "docxref" | .fieldXref => "fieldxref" | .annXref => "annxref" | .valXref => "valxref" | .extraInfo => "extra" | .sumCopy => "sumcopy"
   | .modIndexRoot => "modindex-root" | .modIndex => "modindex" | .modIndexSum => "modindex-sum"
   | .classIndex => "classindex" | .classIndexSum => "classindex-sum" | .nameIndex => "nameindex"
   | .undoc => "undoc" | .indexRoots => "indexroots" | .allDocs => "alldocs" | .allDocsSum => "alldocs-sum"
 
 def allRows : List Row :=
   [.table, .initTable, .baseTable, .detail, .sidebarTitle, .sidebarItem, .sidebarInherited, .heading, .classSig,
-   .knownSub, .overrides, .overriddenIn, .baseName, .baseVia, .docXref, .annXref, .valXref, .extraInfo, .sumCopy,
+   .knownSub, .overrides, .overriddenIn, .baseName, .baseVia, .docXref, .fieldXref, .annXref, .valXref, .extraInfo, .sumCopy,
    .modIndexRoot, .modIndex, .modIndexSum, .classIndex, .classIndexSum, .nameIndex, .undoc, .indexRoots,
    .allDocs, .allDocsSum]
 
